@@ -70,3 +70,66 @@ func c01Witness(w *core.WorkerCtx) {
 	}
 	w.R.Sample(5, map[string]any{"witness": desc, "spend_after_truncation_result": fmt.Sprint(serr), "last_operations": tr})
 }
+
+// c01RootTip: a tentative tip whose declared parents have all been checkpointed by a truncation (it hangs on old
+// vertices and was not built upon yet) is a root of the live graph. It still has to pass the funds test - against
+// everything checkpointed, its history - before it is built upon. Two such tips: one whose issuer never held anything
+// (must be dropped) and one that the checkpoint covers (may be confirmed).
+func c01RootTip(w *core.WorkerCtx) {
+	rng := core.Rand(w.Seed, "C01root")
+	desc := "c01 root tip: 1040-vertex chain, two harness-sealed side tips on the 5th vertex (one overdrawing, one covered), truncation from the main tip, then proposals"
+	world := ledger.NewWorld(rng, w.R, []string{"C01"}, allSnapOracles, desc)
+	defer world.Close()
+	d, err := ledger.Setup(world, ledger.Profile{Nodes: 1, Users: 5, SupplyClass: 0, Delivery: "lockstep"})
+	if err != nil {
+		w.R.Inconc("root tip setup failed: " + err.Error())
+		return
+	}
+	n := world.Nodes[0]
+	u := world.Users
+	var old ledger.H
+	var oldW uint64
+	world.Quiet = true
+	for i := 0; i < 1040; i++ {
+		t := world.NewTrx(u[0], u[1+i%2].Addr, spice.Melange{SupplementaryCurrency: uint64(1 + i%9)}, nil)
+		v, err := world.Propose(n, &t, "grow")
+		if err == nil && i == 4 {
+			old, oldW = v.Hash, v.Weight
+		}
+	}
+	world.Quiet = false
+	world.Observe(n, ledger.OpInfo{Kind: "milestone", OK: true})
+	// u[4] never receives anything; u[1] holds a little, all of it in vertices that get checkpointed or stay live
+	bad := world.NewTrx(u[4], u[3].Addr, spice.Melange{Currency: 7}, nil)
+	badV := ledger.ForgeVertex(world.Sealers[0], bad, old, old, oldW+1, world.Now())
+	good := world.NewTrx(u[1], u[3].Addr, spice.Melange{SupplementaryCurrency: 1}, nil)
+	goodV := ledger.ForgeVertex(world.Sealers[1], good, old, old, oldW+1, world.Now())
+	if err := world.Deliver(n, &badV, "overdrawing side tip on an old vertex"); err != nil {
+		w.R.Inconc("root tip scenario: side tip refused: " + err.Error())
+		return
+	}
+	world.Deliver(n, &goodV, "covered side tip on an old vertex")
+	for attempt := 0; attempt < 12; attempt++ {
+		world.TruncateChecked(n, d, false)
+		if _, ok := n.Prev.Stored[old]; ok {
+			break
+		}
+	}
+	if _, ok := n.Prev.Stored[old]; !ok {
+		w.R.Note("root tip scenario: the old vertex was not checkpointed")
+		return
+	}
+	_, stillTip := n.Prev.Leaves[badV.Hash]
+	for i := 0; i < 4; i++ {
+		t := world.NewTrx(u[0], u[2].Addr, spice.Melange{SupplementaryCurrency: uint64(3 + i)}, nil)
+		world.Propose(n, &t, "after the truncation")
+	}
+	_, live := n.Prev.Live[badV.Hash]
+	world.EvalFor("C01", 1)
+	world.NontrivFor("C01", fmt.Sprintf("root-tip/was-tip=%v/still-live=%v", stillTip, live))
+	tr := world.Trace
+	if len(tr) > 8 {
+		tr = tr[len(tr)-8:]
+	}
+	w.R.Sample(5, map[string]any{"scenario": desc, "overdrawing_root_tip_still_in_the_ledger": live, "last_operations": tr})
+}
